@@ -39,7 +39,7 @@ TOKEN_TYPES = ["Doctype", "Characters", "SpaceCharacters", "StartTag", "EndTag",
 def decision_table(ctx, func, with_previous, extra_next=()):
     """-> {(tagname, next_type, next_name, prev): value} for all abstract inputs."""
     ce = ctx.ce
-    doms = domains_by_scrutinee([func.node])
+    doms = domains_by_scrutinee([func.node], const_of=lambda n: ce.try_eval(n, func.module) if isinstance(n, ast.Name) else None)
     known = {"tagname", "next['name']", "previous['name']", "type", "previous['type']", "next['type']"}
     if set(doms) - known:
         raise AnalysisError("%s compares scrutinees outside the modelled set: %s" % (func.fq, sorted(set(doms) - known)))
